@@ -141,7 +141,7 @@ def stepOpBasic (w : World) (self : Nat) (op : Op) : World × List Ev × Status 
     else (w, [.query self t (queryHeartBeat w t)], .ok)
   | .dest t =>
     if !w.alive t || t < 2 then (w, [.destNone self t], .ok)
-    else (destructLeaf w t, [.dest self t], if t = self then .stop else .ok)
+    else (destructLeaf w t, [.dest self t], if (destructLeaf w t).alive self then .ok else .stop)
   | .clone new kind n =>
     if w.known.contains new then (w, [.cloneDup self new], .ok)
     else
@@ -158,7 +158,8 @@ def stepOpBasic (w : World) (self : Nat) (op : Op) : World × List Ev × Status 
       ({ w with inv := (i, self) :: w.inv }, [.into i self], .ok)
     else (w, [.intoNone i self], .ok)
 
-/-- run a script; stops at the first error or when the object destructed itself -/
+/-- run a script; stops at the first error or when the object is destructed (by itself, or as an inventory item
+    of the object it destructed) -/
 def runOpsBasic (w : World) (self : Nat) : List Op → World × List Ev × Status
   | [] => (w, [], .ok)
   | op :: rest =>
@@ -209,11 +210,12 @@ def stepOp (w : World) (self : Nat) (op : Op) : World × List Ev × Status :=
     if !w.alive t || t < 2 then (w, [.destNone self t], .ok)
     else
       match destructFull w t with
-      | (w', evs, true) => (w', evs ++ [.dest self t], if t = self then .stop else .ok)
-      | (w', evs, false) => (w', evs ++ [.destGone self t], if t = self then .stop else .ok)
+      | (w', evs, true) => (w', evs ++ [.dest self t], if w'.alive self then .ok else .stop)
+      | (w', evs, false) => (w', evs ++ [.destGone self t], if w'.alive self then .ok else .stop)
   | op => stepOpBasic w self op
 
-/-- run a script; stops at the first error or when the object destructed itself -/
+/-- run a script; stops at the first error or when the object is destructed (by itself, or as an inventory item
+    of the object it destructed) -/
 def runOps (w : World) (self : Nat) : List Op → World × List Ev × Status
   | [] => (w, [], .ok)
   | op :: rest =>
